@@ -505,6 +505,10 @@ def _run_parse(case, held):
                 extra["reparse"] = {"raise": H.exc_code(e)}
         return {"cmp": obs, "extra": extra}
     scheme = _scheme_for(case["annot"])
+    # what the scheme hands out belongs to the caller: editing it must not change the scheme
+    handed = scheme.column_names()
+    handed.reverse()
+    handed.append("caller-edit")
     names = scheme.column_names()
     line = "\t".join(case["fields"]) + case["trail"]
     mode = getattr(ValidationStringency, MODES[case["mode"]])
@@ -843,10 +847,15 @@ def gen_write(rng, annots=None, strict_share=0.8):
             if r < 0.4:
                 slots[i]["value"] = rng.choice([[4, "A"], [4, "-"], [2, 5], [2, 0], [4, "0"], [4, " "], [0], [4, ""]])
                 hit.append(i)
-            elif r < 0.8:
+            elif r < 0.7:
                 base = slots[i]["cls"][2] if slots[i]["cls"][0] == "mix" else slots[i]["cls"]
                 slots[i]["cls"] = base
                 slots[i]["value"] = rng.choice([[4, "A"], [2, 5], [0], [4, "ACGT"]])
+                hit.append(i)
+            elif r < 0.85:
+                # the column replaced by hand with an untyped column holding text (or a number)
+                slots[i]["cls"] = ["src", "MafColumnRecord"]
+                slots[i]["value"] = rng.choice([[4, "A"], [4, "ACGT"], [4, "7"], [2, 7], [4, "-"]])
                 hit.append(i)
             else:
                 perturb_class(i)
